@@ -1,31 +1,34 @@
-(* Property C13 - only statements, each closed by [exact]. *)
+(* Property C13 - only statements, each closed by [exact].
+   The model has two variants: [fixed = true] is utils/demangle.c as it is now (with the seven guards
+   of the `fix: demangle:` commits; [demangle] uses it), [fixed = false] is the code as found
+   ([demangle_legacy]), kept for the *_legacy_refuted witnesses. *)
 From Coq Require Import ZArith List Bool Ascii String.
 Import ListNotations.
-Require Import UV.C13.Model UV.C13.Proofs UV.C13.Mono UV.C13.Refuted UV.C13.Roundtrip.
+Require Import UV.C13.Model UV.C13.Proofs UV.C13.Mono UV.C13.Refuted UV.C13.Roundtrip UV.C13.Safe.
 Local Open Scope Z_scope.
 
-(* ---- wrapper level: holds for ANY parser behaviour and every fuel *)
+(* ---- wrapper level: holds for ANY parser behaviour, both variants and every fuel *)
 
 (* A name that does not start with "_Z" (after the optional "_GLOBAL__sub_I_") comes back unchanged. *)
-Theorem C13_non_mangled_unchanged : forall fuel s, mangled_form s = false -> demangle_fuel fuel s = Str s.
+Theorem C13_non_mangled_unchanged : forall fixed fuel s, mangled_form s = false -> demangle_fuel fixed fuel s = Str s.
 Proof. exact non_mangled_unchanged. Qed.
 Print Assumptions C13_non_mangled_unchanged.
 
 (* Fallback on every error: the result is the input itself, or the parse succeeded (then the result
    is the output buffer of the final parser state), or the model left defined behaviour / ran out
    of fuel. *)
-Theorem C13_fallback_on_every_error : forall fuel s,
-  demangle_fuel fuel s = Str s \/
-  (exists k, demangle_fuel fuel s = Crash k) \/
-  demangle_fuel fuel s = Hang \/
-  exists st, parsed fuel s st /\ demangle_fuel fuel s = finish (prefix_of prefix_str s) st.
+Theorem C13_fallback_on_every_error : forall fixed fuel s,
+  demangle_fuel fixed fuel s = Str s \/
+  (exists k, demangle_fuel fixed fuel s = Crash k) \/
+  demangle_fuel fixed fuel s = Hang \/
+  exists st, parsed fixed fuel s st /\ demangle_fuel fixed fuel s = finish fixed s (prefix_of prefix_str s) st.
 Proof. exact fallback_or_parsed. Qed.
 Print Assumptions C13_fallback_on_every_error.
 
 (* Demangling an already plain name changes nothing: a result that is not itself of mangled form
    is a fixed point. *)
-Theorem C13_idempotent_plain : forall fuel fuel' s t,
-  demangle_fuel fuel s = Str t -> mangled_form t = false -> demangle_fuel fuel' t = Str t.
+Theorem C13_idempotent_plain : forall fixed fixed' fuel fuel' s t,
+  demangle_fuel fixed fuel s = Str t -> mangled_form t = false -> demangle_fuel fixed' fuel' t = Str t.
 Proof. exact idempotent_plain. Qed.
 Print Assumptions C13_idempotent_plain.
 
@@ -47,12 +50,12 @@ Proof. exact cursor_primitives. Qed.
 Print Assumptions C13_cursor_primitives_in_bounds.
 
 (* ... and hence under every parser function and loop of the grammar, for every fuel: *)
-Theorem C13_cursor_in_bounds_all_parsers : forall full base fuel f, pres full base (run full base fuel f).
+Theorem C13_cursor_in_bounds_all_parsers : forall fixed full base fuel f, pres full base (run fixed full base fuel f).
 Proof. exact run_pres. Qed.
 Print Assumptions C13_cursor_in_bounds_all_parsers.
 
-Theorem C13_cursor_in_bounds_from_start : forall full base, 0 <= base <= flen full ->
-  forall fuel f v st', run full base fuel f (st0 (slen full base)) = R v st' ->
+Theorem C13_cursor_in_bounds_from_start : forall fixed full base, 0 <= base <= flen full ->
+  forall fuel f v st', run fixed full base fuel f (st0 (slen full base)) = R v st' ->
   pos st' <= slen full base /\ len st' <= slen full base.
 Proof. exact cursor_upper_bound. Qed.
 Print Assumptions C13_cursor_in_bounds_from_start.
@@ -64,13 +67,13 @@ Proof. exact dd_number_int. Qed.
 Print Assumptions C13_number_is_wrapped_int.
 
 (* ---- fuel: OOF is the only way in which the fuel influences the answer *)
-Theorem C13_fuel_monotone : forall s k k', (k <= k')%nat ->
-  demangle_fuel k s <> Hang -> demangle_fuel k' s = demangle_fuel k s.
+Theorem C13_fuel_monotone : forall fixed s k k', (k <= k')%nat ->
+  demangle_fuel fixed k s <> Hang -> demangle_fuel fixed k' s = demangle_fuel fixed k s.
 Proof. exact demangle_fuel_mono. Qed.
 Print Assumptions C13_fuel_monotone.
 
 (* the run-time checker applied to implementation results accepts every string the model returns *)
-Theorem C13_checker_accepts_model : forall fuel s r, demangle_fuel fuel s = Str r -> ok_total s (IStr r) = true.
+Theorem C13_checker_accepts_model : forall fixed fuel s r, demangle_fuel fixed fuel s = Str r -> ok_total s (IStr r) = true.
 Proof. exact checker_accepts_model. Qed.
 Print Assumptions C13_checker_accepts_model.
 
@@ -135,43 +138,77 @@ Theorem C13_roundtrip_examples2 :
 Proof. exact roundtrip_examples2. Qed.
 Print Assumptions C13_roundtrip_examples2.
 
-(* ---- "total and safe for every byte string" is FALSE of the code as found: witnesses *)
+(* ---- total and safe, the code as it is now (fixed = true) *)
 
-(* C1 / D0 with no preceding name: strrchr(dd->new, ':') with dd->new == NULL *)
-Theorem C13_ctor_fault_refuted :
-  demangle (str "_ZC1v") = Crash F_null_out /\ demangle (str "_ZD0v") = Crash F_null_out /\
-  demangle (str "_ZNC1Ev") = Crash F_null_out.
+(* demangle never returns NULL: for every byte string and every fuel *)
+Theorem C13_never_null : forall fuel s, demangle_fuel true fuel s <> Null.
+Proof. exact never_null. Qed.
+Print Assumptions C13_never_null.
+
+(* C13_total_no_fault, PARTIAL: for every byte string and every fuel the only fault the model of the
+   current code can reach is a read BEFORE the first byte of the string.  Excluded by this theorem:
+   NULL output buffer, signed overflow, reads behind the terminating NUL (cursor, strchr/strstr of the
+   Rust `$` loop, append sources), negative or oversized strncpy sizes, the T_type_name index.
+   Missing for the unguarded statement: the lower cursor bound pos >= 0 (DD_DEBUG moves the cursor
+   backwards; differential-tested only) and termination / fuel sufficiency (every loop iteration
+   consumes input or errors) - not proved, the model may still answer Hang; tested on every run. *)
+Theorem C13_total_no_fault_partial : forall fuel s k, demangle_fuel true fuel s = Crash k -> k = F_under_read.
+Proof. exact no_fault_partial. Qed.
+Print Assumptions C13_total_no_fault_partial.
+
+(* the invariant behind it, for every parser function and loop *)
+Theorem C13_every_parser_safe : forall full base fuel f, safe full base (run true full base fuel f).
+Proof. exact run_safe. Qed.
+Print Assumptions C13_every_parser_safe.
+
+(* every legacy witness now yields a string *)
+Theorem C13_legacy_witnesses_now_strings :
+  demangle w_ctor = Str w_ctor /\ demangle w_dtor = Str w_dtor /\ demangle w_nested_ctor = Str w_nested_ctor /\
+  demangle w_len = Str w_len /\ demangle w_len2 = Str w_len2 /\
+  demangle w_dollar_over = Str (str "aa$C") /\ demangle w_dollar_neg = Str w_dollar_neg /\
+  demangle w_special = Str w_special /\ demangle w_null = Str w_null /\ demangle w_hang = Str w_hang /\
+  demangle w_lambda = Str (str "$_2147483648").
+Proof. exact witnesses_fixed. Qed.
+Print Assumptions C13_legacy_witnesses_now_strings.
+
+(* ---- the code as found (fixed = false): "total and safe for every byte string" was FALSE *)
+
+Theorem C13_ctor_fault_legacy_refuted :
+  demangle_legacy (str "_ZC1v") = Crash F_null_out /\ demangle_legacy (str "_ZD0v") = Crash F_null_out /\
+  demangle_legacy (str "_ZNC1Ev") = Crash F_null_out.
 Proof. exact ctor_fault. Qed.
-Print Assumptions C13_ctor_fault_refuted.
+Print Assumptions C13_ctor_fault_legacy_refuted.
 
-(* `dd->pos + num > dd->len` overflows int *)
-Theorem C13_length_overflow_refuted :
-  demangle (str "_Z2147483647x") = Crash F_int_overflow /\ demangle (str "_ZN2147483646aE") = Crash F_int_overflow.
+Theorem C13_length_overflow_legacy_refuted :
+  demangle_legacy (str "_Z2147483647x") = Crash F_int_overflow /\
+  demangle_legacy (str "_ZN2147483646aE") = Crash F_int_overflow.
 Proof. exact length_overflow. Qed.
-Print Assumptions C13_length_overflow_refuted.
+Print Assumptions C13_length_overflow_legacy_refuted.
 
-(* Rust `$` escapes that run over the end of the <source-name> *)
-Theorem C13_dollar_over_read_refuted : demangle (str "_Z3a$C") = Crash F_over_read.
+Theorem C13_dollar_over_read_legacy_refuted : demangle_legacy (str "_Z3a$C") = Crash F_over_read.
 Proof. exact dollar_over_read. Qed.
-Print Assumptions C13_dollar_over_read_refuted.
-Theorem C13_dollar_negative_size_refuted : demangle (str "_Z1$u20$xx") = Crash F_neg_size.
+Print Assumptions C13_dollar_over_read_legacy_refuted.
+Theorem C13_dollar_negative_size_legacy_refuted : demangle_legacy (str "_Z1$u20$xx") = Crash F_neg_size.
 Proof. exact dollar_negative_size. Qed.
-Print Assumptions C13_dollar_negative_size_refuted.
+Print Assumptions C13_dollar_negative_size_legacy_refuted.
 
-(* strchr("VTISFJ", '\0') matches: T_type_name[6] *)
-Theorem C13_special_name_index_refuted : demangle (str "_ZT") = Crash F_index_oob.
+Theorem C13_special_name_index_legacy_refuted : demangle_legacy (str "_ZT") = Crash F_index_oob.
 Proof. exact special_name_index. Qed.
-Print Assumptions C13_special_name_index_refuted.
+Print Assumptions C13_special_name_index_legacy_refuted.
 
-(* a successful parse that emitted nothing returns NULL, not a string *)
-Theorem C13_null_result_refuted : demangle (str "_ZUt_") = Null.
+Theorem C13_null_result_legacy_refuted : demangle_legacy (str "_ZUt_") = Null.
 Proof. exact null_result. Qed.
-Print Assumptions C13_null_result_refuted.
+Print Assumptions C13_null_result_legacy_refuted.
 
-(* not bounded time: for EVERY fuel the model does not return on "_Z1aD" *)
-Theorem C13_termination_refuted : forall fuel, demangle_fuel fuel (str "_Z1aD") = Hang.
+(* lambda numbered INT_MAX: n + 1 overflowed *)
+Theorem C13_lambda_overflow_legacy_refuted : demangle_legacy (str "_ZUlvE2147483647_") = Crash F_int_overflow.
+Proof. exact lambda_overflow. Qed.
+Print Assumptions C13_lambda_overflow_legacy_refuted.
+
+(* not bounded time: for EVERY fuel the legacy model does not return on "_Z1aD" *)
+Theorem C13_termination_legacy_refuted : forall fuel, demangle_fuel false fuel (str "_Z1aD") = Hang.
 Proof. exact hang_every_fuel. Qed.
-Print Assumptions C13_termination_refuted.
+Print Assumptions C13_termination_legacy_refuted.
 
 (* (int)strtoul: 4294967297 is the length 1 *)
 Theorem C13_number_truncation_example : demangle (str "_Z4294967297x") = Str (str "x").
